@@ -1,7 +1,7 @@
 SPECIFICATION FairSpec
 CONSTANTS
  MaxUpdates = 0
- MaxReinit = 0  FixLostWorker = TRUE
+ MaxReinit = 0 BSChoices = {} FixBlockSize = TRUE  FixLostWorker = TRUE
  CountCalls = FALSE
  NW = 2  BS = 2  Total = 4  Chunk = 1  HdrSz = 1  TailSz = 2
  Timeout = FALSE  Spurious = FALSE  MayFail = FALSE
@@ -9,4 +9,4 @@ CONSTANTS
  FlushActs = {}
  MaxCalls = 0
 PROPERTY EventuallyDone
-INVARIANTS OrderedOutput FinishCompletes
+INVARIANTS OrderedOutput FinishCompletes InBufFits
